@@ -424,4 +424,11 @@ theorem nonzero_status_raises (out : Str) (rc : Nat) (r : Option (List Nat)) (hr
   · simp [recv, h127]
   · simp [recv, h127, h, Outcome.bind, hrc]
 
+/-- **the tree read today builds the ping the theorems are about**: the translator found the `-L` / `-C`
+statements of the repaired `rmcp_ping` (`Gen.Ipmitool.pingOptsInSource`, regenerated on every run), i.e. the
+source has the `pingOpts` flag of `Variant.intended`.  A tree that drops them again stops this theorem
+from building (and the probe of the real code reports `C19:ping:argv:-L:missing`). -/
+theorem ping_source_is_intended :
+    Gen.Ipmitool.pingOptsInSource = intended.pingOpts := by decide
+
 end PyIpmi.Props.C19
